@@ -341,6 +341,10 @@ class CookieJar(AbstractCookieJar):
 
             domain = cookie["domain"]
 
+            # RFC 6265 5.2.3: the Domain attribute is compared in lower case
+            if domain and not domain.islower():
+                domain = cookie["domain"] = domain.lower()
+
             # ignore domains with trailing dots
             if domain and domain[-1] == ".":
                 domain = ""
